@@ -438,8 +438,17 @@ class ConfigLoader(BaseLoader):
     # internal helper
 
     def _parse_resource(self, matcher, resource, defines=None):
-        parser = ZConfig.cfgparser.ZConfigParser(resource, self, defines)
-        parser.parse(matcher)
+        # URLs of the resources being parsed, outermost first
+        active = self.__dict__.setdefault('_active_resources', [])
+        if resource.url and resource.url in active:
+            raise ZConfig.ConfigurationError(
+                "recursive %include of " + resource.url, resource.url)
+        active.append(resource.url)
+        try:
+            parser = ZConfig.cfgparser.ZConfigParser(resource, self, defines)
+            parser.parse(matcher)
+        finally:
+            active.pop()
 
 
 class CompositeHandler:
